@@ -88,6 +88,9 @@ pub struct ProbeOut {
   pub sid: usize,
   pub sub_no: usize,
   pub at: u64,
+  /// thread on which the source's subscribe function ran
+  pub tid: usize,
+  pub on_lib_thread: bool,
   pub attempts: Vec<Attempt>,
   /// is_subscribed() of the observer the source was handed, after the actions and the
   /// sentinel round (before the forced final unsubscribe)
@@ -98,6 +101,8 @@ struct Probe {
   sid: usize,
   sub_no: usize,
   at: u64,
+  tid: usize,
+  on_lib_thread: bool,
   observer: Option<Observer<'static, V>>,
   attempts: Vec<Attempt>,
 }
@@ -122,7 +127,15 @@ impl Stats {
     let sub_no = self.next_sub_no(sid);
     let at = arx_rt::stamp();
     let mut p = lk(&self.probes);
-    p.push(Probe { sid, sub_no, at, observer: Some(o.clone()), attempts: Vec::new() });
+    p.push(Probe {
+      sid,
+      sub_no,
+      at,
+      tid: arx_rt::tid(),
+      on_lib_thread: arx_rt::thread_is_lib(),
+      observer: Some(o.clone()),
+      attempts: Vec::new(),
+    });
     (p.len() - 1, sub_no)
   }
   fn attempt(&self, pid: usize, was: bool, ev: &Ev) {
@@ -698,6 +711,15 @@ pub struct RunLog {
   pub made_items: i64,
   /// description of the call in progress (for "call did not return" reports)
   pub in_call: Option<String>,
+  /// concurrent cases: every library call made by a harness thread, with stamps
+  pub call_marks: Vec<CallMark>,
+  /// concurrent cases: calls that were entered and have not returned (thread, index, action)
+  pub open_calls: Vec<(usize, usize, String)>,
+  pub threads_joined: bool,
+  pub drained_stamp: u64,
+  pub lib_threads_alive_before_final: usize,
+  pub final_unsub_vt: u64,
+  pub force_unsubscribed: Vec<usize>,
 }
 
 pub struct Shared {
@@ -815,19 +837,22 @@ pub struct RunOpts {
   pub settle: bool,
   /// virtual time allowed to pass at the very end so that worker threads can exit (ms)
   pub final_wait_ms: u64,
+  /// concurrent cases: virtual time allowed to pass after the harness threads finished
+  pub drain_ms: u64,
+  /// emit the sentinel value into every hot source in the epilogue
+  pub sentinel: bool,
 }
 
 impl Default for RunOpts {
   fn default() -> Self {
-    RunOpts { settle: true, final_wait_ms: 10_000 }
+    RunOpts { settle: true, final_wait_ms: 10_000, drain_ms: 0, sentinel: true }
   }
 }
 
-/// The body of a sequential case; runs as thread 0 of an execution.
-pub fn drive(case: &Case, opts: &RunOpts, log: Arc<Mutex<RunLog>>) {
+pub fn setup(case: &Case, log: &Arc<Mutex<RunLog>>) -> (Env, Arc<Shared>) {
   let nrec = case.recorders.len();
   {
-    let mut l = lk(&log);
+    let mut l = lk(log);
     l.recs = vec![Vec::new(); nrec];
     l.sub_marks = vec![None; nrec];
     l.unsub_marks = vec![Vec::new(); nrec];
@@ -842,24 +867,34 @@ pub fn drive(case: &Case, opts: &RunOpts, log: Arc<Mutex<RunLog>>) {
     log: log.clone(),
     ncount: (0..nrec).map(|_| AtomicUsize::new(0)).collect(),
   });
+  (env, sh)
+}
+
+pub fn run_action(sh: &Arc<Shared>, a: &Action) {
+  match a {
+    Action::Subscribe(k) => do_subscribe(sh, *k),
+    Action::Emit(i, ev) => sh.env.emit(*i, ev),
+    Action::Unsub(k) => do_unsub(sh, *k),
+    Action::DropUsing(k) => {
+      let s = lk(&sh.subs)[*k].clone();
+      if let Some(s) = s {
+        let t0 = arx_rt::stamp();
+        let u = utils::Using::new(s);
+        drop(u);
+        let t1 = arx_rt::stamp();
+        lk(&sh.log).unsub_marks[*k].push((t0, t1));
+      }
+    }
+    Action::Advance(ms) => arx_rt::sleep_ns(ms * 1_000_000),
+  }
+}
+
+/// The body of a sequential case; runs as thread 0 of an execution.
+pub fn drive(case: &Case, opts: &RunOpts, log: Arc<Mutex<RunLog>>) {
+  let (env, sh) = setup(case, &log);
   for (ai, a) in case.actions.iter().enumerate() {
     lk(&log).in_call = Some(format!("action {} {:?}", ai, a));
-    match a {
-      Action::Subscribe(k) => do_subscribe(&sh, *k),
-      Action::Emit(i, ev) => env.emit(*i, ev),
-      Action::Unsub(k) => do_unsub(&sh, *k),
-      Action::DropUsing(k) => {
-        let s = lk(&sh.subs)[*k].clone();
-        if let Some(s) = s {
-          let t0 = arx_rt::stamp();
-          let u = utils::Using::new(s);
-          drop(u);
-          let t1 = arx_rt::stamp();
-          lk(&log).unsub_marks[*k].push((t0, t1));
-        }
-      }
-      Action::Advance(ms) => arx_rt::sleep_ns(ms * 1_000_000),
-    }
+    run_action(&sh, a);
     if opts.settle {
       arx_rt::settle();
     }
@@ -870,11 +905,81 @@ pub fn drive(case: &Case, opts: &RunOpts, log: Arc<Mutex<RunLog>>) {
     l.in_call = None;
     l.actions_done = ai + 1;
   }
+  epilogue(case, opts, &log, env, sh);
+}
+
+#[derive(Clone, Debug, Serialize)]
+pub struct CallMark {
+  pub thread: usize,
+  pub idx: usize,
+  pub action: Action,
+  pub call: u64,
+  pub ret: u64,
+  pub vt_call: u64,
+  pub vt_ret: u64,
+  pub tid: usize,
+}
+
+/// The body of a concurrent case: `case.actions` run on the main thread first, then every
+/// list of `threads` runs on its own harness thread; every library call is bracketed by
+/// stamps. Afterwards virtual time passes so that scheduler threads drain, then the
+/// common epilogue runs.
+pub fn drive_conc(case: &Case, threads: &[Vec<Action>], opts: &RunOpts, log: Arc<Mutex<RunLog>>) {
+  let (env, sh) = setup(case, &log);
+  let run_marked = |sh: &Arc<Shared>, log: &Arc<Mutex<RunLog>>, thread: usize, idx: usize, a: &Action| {
+    lk(log).open_calls.push((thread, idx, format!("{:?}", a)));
+    let (call, vt_call) = (arx_rt::stamp(), arx_rt::now());
+    run_action(sh, a);
+    let (ret, vt_ret) = (arx_rt::stamp(), arx_rt::now());
+    let mut l = lk(log);
+    l.open_calls.retain(|x| !(x.0 == thread && x.1 == idx));
+    l.call_marks.push(CallMark { thread, idx, action: a.clone(), call, ret, vt_call, vt_ret, tid: arx_rt::tid() });
+  };
+  for (ai, a) in case.actions.iter().enumerate() {
+    run_marked(&sh, &log, 0, ai, a);
+  }
+  let mut handles = Vec::new();
+  for (ti, acts) in threads.iter().enumerate() {
+    let (sh2, log2, acts2) = (sh.clone(), log.clone(), acts.clone());
+    handles.push(arx_rt::spawn_named(&format!("h{}", ti + 1), move || {
+      for (ai, a) in acts2.iter().enumerate() {
+        let run_marked = |thread: usize, idx: usize, a: &Action| {
+          lk(&log2).open_calls.push((thread, idx, format!("{:?}", a)));
+          let (call, vt_call) = (arx_rt::stamp(), arx_rt::now());
+          run_action(&sh2, a);
+          let (ret, vt_ret) = (arx_rt::stamp(), arx_rt::now());
+          let mut l = lk(&log2);
+          l.open_calls.retain(|x| !(x.0 == thread && x.1 == idx));
+          l.call_marks.push(CallMark { thread, idx, action: a.clone(), call, ret, vt_call, vt_ret, tid: arx_rt::tid() });
+        };
+        run_marked(ti + 1, ai, a);
+      }
+    }));
+  }
+  for h in handles {
+    h.join();
+  }
+  lk(&log).threads_joined = true;
+  // let scheduler threads drain what was handed to them
+  if opts.drain_ms > 0 {
+    arx_rt::sleep_ns(opts.drain_ms * 1_000_000);
+  }
+  arx_rt::settle();
+  snapshot_timeline(&sh);
+  lk(&log).drained_stamp = arx_rt::stamp();
+  epilogue(case, opts, &log, env, sh);
+}
+
+fn epilogue(case: &Case, opts: &RunOpts, log: &Arc<Mutex<RunLog>>, env: Env, sh: Arc<Shared>) {
+  let nrec = case.recorders.len();
+  let log = log.clone();
   // ---- epilogue 1: sentinel round on every hot source
   lk(&log).in_call = Some("sentinel round".into());
   lk(&log).sentinel_stamp = arx_rt::stamp();
-  for i in 0..case.hots.len() {
-    env.emit(i, &Ev::N(SENTINEL));
+  if opts.sentinel {
+    for i in 0..case.hots.len() {
+      env.emit(i, &Ev::N(SENTINEL));
+    }
   }
   if opts.settle {
     arx_rt::settle();
@@ -883,15 +988,15 @@ pub fn drive(case: &Case, opts: &RunOpts, log: Arc<Mutex<RunLog>>) {
   // ---- epilogue 2: final probes
   {
     let mut outs = Vec::new();
-    let probes: Vec<(usize, usize, u64, Option<Observer<'static, V>>, Vec<Attempt>)> = {
+    let probes: Vec<(usize, usize, u64, usize, bool, Option<Observer<'static, V>>, Vec<Attempt>)> = {
       let mut p = lk(&env.stats.probes);
       p.iter_mut()
-        .map(|x| (x.sid, x.sub_no, x.at, x.observer.take(), std::mem::take(&mut x.attempts)))
+        .map(|x| (x.sid, x.sub_no, x.at, x.tid, x.on_lib_thread, x.observer.take(), std::mem::take(&mut x.attempts)))
         .collect()
     };
-    for (sid, sub_no, at, o, attempts) in probes {
+    for (sid, sub_no, at, tid, on_lib_thread, o, attempts) in probes {
       let final_sub = o.as_ref().map(|o| o.is_subscribed()).unwrap_or(false);
-      outs.push(ProbeOut { sid, sub_no, at, attempts, final_sub });
+      outs.push(ProbeOut { sid, sub_no, at, tid, on_lib_thread, attempts, final_sub });
     }
     let counts: Vec<Option<usize>> = env.hots.iter().map(|h| h.observer_count()).collect();
     let mut l = lk(&log);
@@ -907,12 +1012,15 @@ pub fn drive(case: &Case, opts: &RunOpts, log: Arc<Mutex<RunLog>>) {
   }
   // ---- epilogue 3: end everything that is still running, let worker threads exit
   lk(&log).in_call = Some("final unsubscribe".into());
+  lk(&log).lib_threads_alive_before_final = arx_rt::lib_threads_alive();
+  lk(&log).final_unsub_vt = arx_rt::now();
   for k in 0..nrec {
     let s = lk(&sh.subs)[k].clone();
     if let Some(s) = s {
       // only subscriptions that have not ended by themselves (C17 audits the others as
       // they are)
       if s.is_subscribed() {
+        lk(&log).force_unsubscribed.push(k);
         s.unsubscribe();
       }
     }
@@ -953,6 +1061,16 @@ pub fn drive(case: &Case, opts: &RunOpts, log: Arc<Mutex<RunLog>>) {
 pub struct RunResult {
   pub log: RunLog,
   pub outcome: arx_rt::Outcome,
+}
+
+pub fn run_conc(case: &Case, threads: &[Vec<Action>], cfg: arx_rt::Config, opts: RunOpts) -> RunResult {
+  let log = Arc::new(Mutex::new(RunLog::default()));
+  let l2 = log.clone();
+  let case2 = case.clone();
+  let threads2 = threads.to_vec();
+  let outcome = arx_rt::run(cfg, move || drive_conc(&case2, &threads2, &opts, l2));
+  let log = lk(&log).clone();
+  RunResult { log, outcome }
 }
 
 pub fn run_case(case: &Case, cfg: arx_rt::Config, opts: RunOpts) -> RunResult {
